@@ -900,13 +900,15 @@ pub fn canonicalize_query_to_string(query_parameters: &HashMap<String, Vec<Strin
         // Don't include the signature itself.
         if key != X_AMZ_SIGNATURE {
             for value in values.iter() {
-                results.push(format!("{}={}", key, value));
+                results.push((key, value));
             }
         }
     }
 
+    // Sort by encoded name, then by encoded value. Sorting the joined "name=value" strings is not equivalent:
+    // '=' sorts above '-', '.' and the digits, so "a=2" would sort after "a-b=3" and "a1=1".
     results.sort_unstable();
-    results.join("&")
+    results.iter().map(|(key, value)| format!("{}={}", key, value)).collect::<Vec<_>>().join("&")
 }
 
 /// Normalizes the specified URI path, removing redundant slashes and relative path components (unless performing S3
